@@ -33,14 +33,20 @@
 (*                      the lookup; a kernel applies ".." after following links             *)
 (*   StaleNegativeMemo  invalid_paths filled by failed look-ups DURING populate_cache is    *)
 (*                      consulted by later look-ups although the index has grown since      *)
+(*   LinkDirnameUntranscoded  the directory of a link member is read from the untranscoded   *)
+(*                      member name, so relative links inside directories whose names are     *)
+(*                      raw non-ASCII bytes are looked up under a name the index does not have*)
 (*   GuardIsInstance    VFSZip subclasses VFS_Real, so isinstance(vfs, VFS_Real) is TRUE for*)
 (*                      archive members; executables are kept from ExecHandler/PYGHandler   *)
 (*                      only by VFSZip.stat's constant mode 0644 (ConstMode)                *)
-(* The two constants below select the code AS PINNED (TRUE) or as repaired (FALSE).         *)
+(* The boolean constants below select the code AS PINNED (TRUE) or as repaired (FALSE).     *)
 EXTENDS Naturals, Sequences, FiniteSets
 
 CONSTANTS StaleNegativeMemo,     \* invalid_paths consulted while the index is still growing
-          GuardIsInstance        \* real-file-only guards written as isinstance(vfs, VFS_Real)
+          GuardIsInstance,       \* real-file-only guards written as isinstance(vfs, VFS_Real)
+          RawNames,              \* components stored as non-UTF-8 bytes without the UTF-8 flag (what zip(1) writes)
+          LinkDirnameUntranscoded \* a link's own directory is taken from info.filename (Python's cp437 reading),
+                                 \* not from the transcoded name the index is keyed by
 
 Front(s) == SubSeq(s, 1, Len(s) - 1)
 LastOf(s) == s[Len(s)]
@@ -131,8 +137,15 @@ AddMemberStep(st, m) ==
     ELSE LET new == Len(w.nodes) + 1 IN
          [st EXCEPT !.nodes = Append([w.nodes EXCEPT ![w.at].ents = EntPut(@, SplitBase(m), new)], FileNode(m.p))]
 
-\* second loop: the target as the code computes it (AbsIsArchiveRoot, LexicalDotDot)
-DestPath(it) == IF it.dest.abs THEN it.dest.c ELSE NormPath(Front(it.path) \o it.dest.c)
+\* second loop: the target as the code computes it (AbsIsArchiveRoot, LexicalDotDot).  The index is
+\* keyed by names transcoded back to bytes-with-surrogates; os.path.dirname(item["pathname"]) is the
+\* name as Python decoded it (cp437): for a raw non-ASCII component the two differ (written c?).
+Untrans(c) == IF LinkDirnameUntranscoded /\ c \in RawNames THEN c \o "?" ELSE c
+DestPath(it) ==
+    IF it.dest.abs THEN it.dest.c
+    ELSE NormPath([j \in 1..(Len(it.path) - 1) |-> Untrans(it.path[j])] \o it.dest.c)
+\* input class: relative links stored inside a directory with a raw non-ASCII name
+RawDirLinks(ms) == {k \in Range(ms) : k.k = "l" /\ ~k.dest.abs /\ \E j \in 1..(Len(k.p) - 1) : k.p[j] \in RawNames}
 
 RECURSIVE PassFold(_, _, _, _)
 PassFold(nodes, memo, items, keep) ==
